@@ -568,6 +568,14 @@ class GenericInterp(Interp):
         if r is not NotImplemented:
             return r
         k = n.k
+        if k == 'cast' and n.c and n.c[0] is not None:
+            v = self.ev(n.c[0], env)
+            if isinstance(v, tuple) and len(v) == 2 and v[0] == 'e' and (n.get('toc') or '') in ('int', 'unsigned int', 'long', 'unsigned long', 'size_t', 'unsigned long long'):
+                en, nm = v[1].rsplit('::', 1)
+                for x in (self.prog.enums.get(en) or {}).get('enumerators', []):
+                    if x['name'] == nm:
+                        return x['value']
+            return v
         if k == 'assign':
             r2 = self._assign(n, env, n.get('op'), n.c[0], n.c[1])
             if r2 is not NotImplemented:
@@ -597,10 +605,17 @@ class GenericInterp(Interp):
                     return env[t[1]]
             vals = tuple(_freeze(self.ev(x, env)) for x in n.c if x is not None)
             if op in ('<', '>', '<=', '>=', '==', '!=') and len(vals) == 2:
+                if isinstance(vals[0], str) and isinstance(vals[1], str):
+                    a, b = vals
+                    return {'<': a < b, '>': a > b, '<=': a <= b, '>=': a >= b, '==': a == b, '!=': a != b}[op]
                 key, neg = _canon_cmp(op, vals[0], vals[1])
                 return self.decide_neg(('cmp',) + key, neg)
             if op == '!' and len(vals) == 1:
                 return not self.truth(vals[0], n)
+            if op == '[]' and len(vals) == 2 and isinstance(vals[0], tuple) and vals[0][:1] == ('vec',) and isinstance(vals[1], int) and not isinstance(vals[1], bool):
+                if 0 <= vals[1] < len(vals[0]) - 1:
+                    return vals[0][1 + vals[1]]
+                return Opaque(('out-of-range', vals[1]))
             if op in ('*', '->') and len(vals) == 1:
                 return Opaque(('deref', vals[0]))
             if op in ('+', '-') and len(vals) == 2:
@@ -639,6 +654,12 @@ class GenericInterp(Interp):
             cal = n.callee or {}
             args = [x for x in n.c if x is not None and x.k != 'defarg']
             vals = tuple(_freeze(self.ev(x, env)) for x in args)
+            if len(vals) == 1 and (cal.get('cls') or '').startswith('std::vector') and isinstance(vals[0], tuple) and vals[0][:1] == ('list',):
+                items = vals[0][1:]
+                while len(items) == 1 and isinstance(items[0], tuple) and items[0][:1] == ('list',):
+                    items = items[0][1:]
+                if all(isinstance(x, (str, int, float)) for x in items):
+                    return Opaque(('vec',) + tuple(items))
             if self.watch(n):
                 self.log.append(('new ' + (cal.get('cls') or '?'),) + vals)
                 if self.log_terms:
